@@ -242,6 +242,28 @@ pub fn resolvers_dts_with(doc: &TypeSystemDocument, config: &Config, schema_sour
     Ok(writer.into_buffers())
 }
 
+/// the plugins the CLI's load_plugins gives for these names, in this order
+pub fn make_plugins(names: &[&str]) -> Vec<Plugin<'static>> {
+    names
+        .iter()
+        .map(|n| match *n {
+            "nitrogql:model-plugin" => Plugin::new(Box::new(nitrogql_plugin::ModelPlugin {})),
+            "nitrogql:graphql-scalars-plugin" => Plugin::new(Box::<nitrogql_plugin::GraphQLScalarsPlugin>::default()),
+            other => crate::report::machinery(&format!("unknown plugin {other}")),
+        })
+        .collect()
+}
+
+pub fn resolvers_dts_plugins(doc: &TypeSystemDocument, config: &Config, schema_source: &str, names: &[&str]) -> Result<SourceWriterBuffers, String> {
+    let mut options = ResolverTypePrinterOptions::from_config(config);
+    options.schema_source = schema_source.to_string();
+    let mut writer = SourceWriter::new();
+    let mut printer = ResolverTypePrinter::new(options, &mut writer);
+    let plugins = make_plugins(names);
+    printer.print_document(doc, &plugins).map_err(|e| format!("{e:?}"))?;
+    Ok(writer.into_buffers())
+}
+
 pub fn operation_dts(schema: &Schema<Cow<str>, Pos>, doc: &OperationDocument, config: &Config, schema_source: &str) -> SourceWriterBuffers {
     let mut options = OperationTypePrinterOptions::from_config(config);
     options.schema_source = schema_source.to_string();
